@@ -100,9 +100,16 @@ def rebin(x, d, sample=False):
                     if fp < d0[k] - 1:
                         sliceobj1[k] = slice(fp + 1, fp + 2)
                         rshape = r[tuple(sliceobj)].shape
-                        r[tuple(sliceobj)] = (xx[tuple(sliceobj0)].reshape(rshape) +
-                                              (rem/d[k])*(xx[tuple(sliceobj1)] -
-                                                          xx[tuple(sliceobj0)]).reshape(rshape))
+                        x0 = xx[tuple(sliceobj0)].reshape(rshape)
+                        x1 = xx[tuple(sliceobj1)].reshape(rshape)
+                        if xx.dtype.kind == 'u' or xx.dtype.kind == 'i':
+                            #
+                            # The difference of two unsigned or narrow
+                            # integers wraps around in their own type.
+                            #
+                            x0 = x0.astype('d')
+                            x1 = x1.astype('d')
+                        r[tuple(sliceobj)] = x0 + (rem/d[k])*(x1 - x0)
                     else:
                         r[tuple(sliceobj)] = xx[tuple(sliceobj0)]
         elif d[k] == d0[k]:
